@@ -63,6 +63,10 @@ func TestVerifC12P384Field(t *testing.T) {
 				}
 			case 3:
 				yv = bf.Mod(new(big.Int).Add(xv, big.NewInt(int64(r.Intn(5)-2))), pm)
+			case 4, 5: // x*y/R lands on 0, +-1, +-2, +-3: the final conditional subtraction decides
+				if yv = gen.Partner(r, xv, R); yv == nil {
+					yv = gen.Draw(r)
+				}
 			default:
 				yv = gen.Draw(r)
 			}
